@@ -98,7 +98,7 @@ type FG struct {
 	loopEntrySt map[int]*State // memory state at the entry of each loop (by header block)
 	snapshotCells int // interior addresses stored to memory, modelled by snapshot cells
 	merges map[int]*mergeInfo
-	copyOut map[ssa.Value]copyOutInfo
+	copyOut map[ssa.Value][]copyOutInfo
 	g       *Gen
 	fn      *ssa.Function
 	c       *Contract
